@@ -12,6 +12,7 @@ import (
 type PrintCase struct {
 	Opt     *OptCase `json:"opt"`
 	Printer string   `json:"printer"` // cnf pb solver solver-solved
+	Used    bool     `json:"used,omitempty"` // cnf / pb: the Problem is printed after a solver built from it has searched
 }
 
 func genC18(r *rand.Rand, idx int, tier string) *PrintCase {
@@ -31,6 +32,9 @@ func genC18(r *rand.Rand, idx int, tier string) *PrintCase {
 		o.NoCost = true
 	default:
 		c.Printer = []string{"pb", "pb", "solver", "solver-solved"}[r.Intn(4)]
+	}
+	if (c.Printer == "cnf" || c.Printer == "pb") && r.Intn(4) == 0 {
+		c.Used = true
 	}
 	return c
 }
@@ -56,6 +60,9 @@ func runC18(e *emitter, idx int, c *PrintCase) {
 	psx.List[0] = I(n)
 	csx := L(I(printerCode(c.Printer)), psx, o.costSx())
 	meta := Meta{Class: c.Printer + "/" + p.Class + "/" + p.Front, Desc: c}
+	if c.Used {
+		meta.Class = c.Printer + "-used/" + p.Class + "/" + p.Front
+	}
 	e.begin(idx, csx, meta)
 	text := ""
 	reErr, reNb, reCount, reVerdict, reWeight, origStatus := 0, -1, -1, 0, 0, 0
@@ -80,6 +87,9 @@ func runC18(e *emitter, idx int, c *PrintCase) {
 		}
 		pb := build()
 		origStatus = verdictCode(pb.Status)
+		if c.Used && pb.Status != solver.Unsat {
+			solver.New(pb).Solve()
+		}
 		switch c.Printer {
 		case "cnf":
 			text = pb.CNF()
